@@ -19,19 +19,31 @@ type mergeInfo struct {
 	join       *ssa.BasicBlock
 }
 
-var mergeCache sync.Map // *ssa.If -> *mergeInfo
+var mergeCache sync.Map // mergeKey -> *mergeInfo
+
+type mergeKey struct{ b, s0, s1 *ssa.BasicBlock }
 
 type specAbort struct{}
 
-func pureBlock(b *ssa.BasicBlock) bool {
-	if len(b.Preds) != 1 || len(b.Instrs) > 24 {
+func pureBlock(b *ssa.BasicBlock) bool { return pureBlockEnding(b, false) }
+
+// pureBlockEnding checks that b has a single predecessor and only side-effect-free
+// instructions, ending in a Jump (wantIf=false) or an If (wantIf=true).
+func pureBlockEnding(b *ssa.BasicBlock, wantIf bool) bool {
+	if (len(b.Preds) != 1 && (wantIf || hasPhi(b))) || len(b.Instrs) > 24 {
 		return false
 	}
 	for i, ins := range b.Instrs {
 		last := i == len(b.Instrs)-1
 		switch x := ins.(type) {
+		case *ssa.Phi:
+			return false
+		case *ssa.If:
+			if !last || !wantIf {
+				return false
+			}
 		case *ssa.Jump:
-			if !last {
+			if !last || wantIf {
 				return false
 			}
 		case *ssa.BinOp, *ssa.ChangeType, *ssa.Field, *ssa.FieldAddr, *ssa.Extract,
@@ -54,13 +66,96 @@ func pureBlock(b *ssa.BasicBlock) bool {
 			return false
 		}
 	}
+	if wantIf {
+		_, ok := b.Instrs[len(b.Instrs)-1].(*ssa.If)
+		return ok
+	}
 	_, ok := b.Instrs[len(b.Instrs)-1].(*ssa.Jump)
 	return ok
 }
 
-func analyzeMerge(instr *ssa.If) *mergeInfo {
-	b := instr.Block()
-	s0, s1 := b.Succs[0], b.Succs[1]
+func hasPhi(b *ssa.BasicBlock) bool {
+	if len(b.Instrs) == 0 {
+		return false
+	}
+	_, ok := b.Instrs[0].(*ssa.Phi)
+	return ok
+}
+
+type scInfo struct {
+	kind int // 0 none, 1 OR (s1 is the second condition), 2 AND (s0 is the second condition)
+}
+
+var scCache sync.Map // mergeKey -> *scInfo
+
+// foldShortCircuit recognises `c || c1` and `c && c1` control flow: the second condition
+// lives in a pure block that branches to the same target as the first. It evaluates the
+// second condition speculatively and returns the combined branch.
+func (in *interp) foldShortCircuit(fr *frame, cur *ssa.BasicBlock, c *Sym, s0, s1 *ssa.BasicBlock) (*ssa.BasicBlock, value, *ssa.BasicBlock, *ssa.BasicBlock, bool) {
+	if in.noMerge {
+		return nil, nil, nil, nil, false
+	}
+	key := mergeKey{cur, s0, s1}
+	var info *scInfo
+	if v, ok := scCache.Load(key); ok {
+		info = v.(*scInfo)
+	} else {
+		info = &scInfo{}
+		switch {
+		case s1 != s0 && pureBlockEnding(s1, true) && s1.Preds[0] == cur && s1.Succs[0] == s0 && !hasPhi(s0) && s1.Succs[1] != s1:
+			info.kind = 1
+		case s1 != s0 && pureBlockEnding(s0, true) && s0.Preds[0] == cur && s0.Succs[1] == s1 && !hasPhi(s1) && s0.Succs[0] != s0:
+			info.kind = 2
+		}
+		scCache.Store(key, info)
+	}
+	if info.kind == 0 {
+		return nil, nil, nil, nil, false
+	}
+	cb := s1
+	if info.kind == 2 {
+		cb = s0
+	}
+	var c1 value
+	ok := func() (ok bool) {
+		in.spec++
+		saveB, saveP := fr.block, fr.prevBlock
+		defer func() {
+			in.spec--
+			fr.block, fr.prevBlock = saveB, saveP
+			if r := recover(); r != nil {
+				switch r.(type) {
+				case specAbort, runtimePanic, targetPanic:
+					ok = false
+				default:
+					panic(r)
+				}
+			}
+		}()
+		fr.block, fr.prevBlock = cb, cur
+		for _, ins := range cb.Instrs {
+			switch x := ins.(type) {
+			case *ssa.If:
+				c1 = fr.get(x.Cond)
+				return true
+			case *ssa.Phi:
+				panic(specAbort{})
+			}
+			in.visitInstr(fr, ins)
+		}
+		return false
+	}()
+	if !ok {
+		return nil, nil, nil, nil, false
+	}
+	t1 := in.termOf(c1)
+	if info.kind == 1 {
+		return cb, in.mk(types.Bool, in.tp.Or(c.T, t1)), s0, cb.Succs[1], true
+	}
+	return cb, in.mk(types.Bool, in.tp.And(c.T, t1)), cb.Succs[0], s1, true
+}
+
+func analyzeMerge(b, s0, s1 *ssa.BasicBlock) *mergeInfo {
 	mi := &mergeInfo{}
 	p0, p1 := pureBlock(s0), pureBlock(s1)
 	switch {
@@ -80,21 +175,21 @@ func analyzeMerge(instr *ssa.If) *mergeInfo {
 // tryMerge attempts to execute both arms of a pure conditional and merge the
 // join-block phis into ite terms. Returns true when control has been moved to
 // the join block (phis already assigned).
-func (in *interp) tryMerge(fr *frame, instr *ssa.If, cond *Sym) (merged bool) {
+func (in *interp) tryMerge(fr *frame, b, s0, s1 *ssa.BasicBlock, cond *Sym) (merged bool) {
 	if in.noMerge {
 		return false
 	}
 	var mi *mergeInfo
-	if v, ok := mergeCache.Load(instr); ok {
+	key := mergeKey{b, s0, s1}
+	if v, ok := mergeCache.Load(key); ok {
 		mi = v.(*mergeInfo)
 	} else {
-		mi = analyzeMerge(instr)
-		mergeCache.Store(instr, mi)
+		mi = analyzeMerge(b, s0, s1)
+		mergeCache.Store(key, mi)
 	}
 	if !mi.ok {
 		return false
 	}
-	b := fr.block
 	// speculative execution of the arms
 	ok := func() (ok bool) {
 		in.spec++
